@@ -99,3 +99,19 @@ func main() {
 
 var generators = map[string]func(w *bufio.Writer, thorough bool, r *Rng){}
 var commands = map[string]func(args []string){}
+
+func init() {
+	commands["data"] = func(args []string) { // vh data <token> : writes the bytes to stdout
+		os.Stdout.Write(parseData(args[0]))
+	}
+	commands["fnv"] = func(args []string) { // vh fnv <file>… : size and FNV-1a of each file
+		for _, a := range args {
+			b, err := os.ReadFile(a)
+			if err != nil {
+				fmt.Println("error", err)
+				continue
+			}
+			fmt.Println(len(b), fnv(b))
+		}
+	}
+}
